@@ -304,7 +304,7 @@ def search(ctx):
             if got != want:
                 ctx.violation("C20:overlaps", "overlaps %r, expected %r" % (got, want), dict(kind="overlaps", **info))
             lw = max([0] + [rs[a] + rs[b] - np.linalg.norm(cs[a] - cs[b]) for a in range(m) for b in range(a + 1, m)])
-            if abs(sp.largest_overlap() - lw) > 1e-12:
+            if not (abs(sp.largest_overlap() - lw) <= 1e-12):
                 ctx.violation("C20:largest", "largest_overlap %r, expected %r" % (sp.largest_overlap(), lw), dict(kind="largest", **info))
             if warned != bool(sp.overlaps):
                 ctx.violation("C20:warn", "overlap warning issued=%r with overlaps=%r" % (warned, sp.overlaps), dict(kind="warn", **info))
